@@ -151,7 +151,7 @@ Definition read_result (input source : val) (line col : Z) : res :=
     | inl (v, rest, Loc rl rc) =>
       ROk (plist [("status", vsym "ok"); ("result", v);
                   ("rest", val_drop (List.length t - List.length rest) input);
-                  ("line", VNum (Z.of_N rl)); ("column", VNum (Z.of_N (rc + 1)))])
+                  ("line", VNum (wrap64 (Z.of_N rl))); ("column", VNum (wrap64 (Z.of_N (rc + 1))))])   (* `as i64` casts *)
     | inr ENothing => ROk (plist [("status", vsym "nothing")])
     | inr EIncomplete => ROk (plist [("status", vsym "incomplete")])
     | inr EInvalid => ROk (plist [("status", vsym "invalid")])
@@ -162,7 +162,7 @@ Definition read_result (input source : val) (line col : Z) : res :=
       let err := plist [("location", eloc); ("message", string_to_list msg)] in
       ROk (plist [("status", vsym "error"); ("error", err);
                   ("rest", val_drop (List.length t - List.length rest) input);
-                  ("line", VNum (Z.of_N rl)); ("column", VNum (Z.of_N rc))])
+                  ("line", VNum (wrap64 (Z.of_N rl))); ("column", VNum (wrap64 (Z.of_N rc)))])
     end
   end.
 
